@@ -458,7 +458,11 @@ def explicit_zero(ctx, rep, clause):
                 n += 1
                 # the test must look at the same text that is converted
                 conv = [c for c in ast.walk(x.body) if isinstance(c, ast.Call) and norm_stmt(c.func) == 'convert_type'][0]
-                same = conv.args and norm_stmt(conv.args[0]) == norm_stmt(x.test)
+                txt_ = norm_stmt(conv.args[0]) if conv.args else None
+                t_ = norm_stmt(x.test)
+                # a presence test of the very text that is converted: truthiness, != '', is not None, len(..) > 0
+                same = txt_ is not None and t_ in (txt_, f"{txt_} != ''", f"'' != {txt_}", f'{txt_} is not None',
+                                                   f'len({txt_}) > 0', f'len({txt_}) != 0', f'bool({txt_})')
                 ob(rep, 'TOK-formula', f.fq, f'`{norm_stmt(x)[:70]}`: the default applies iff the count text is empty',
                    bool(same), 'tested on the text', f'the default is chosen by `{norm_stmt(x.test)}`, which is not the '
                    f'text being converted', f.loc(x), clause)
